@@ -107,6 +107,7 @@ def run(ctx):
                     jax.effects_barrier()
                     observe(tag + "_same_policy", _close(out, base))
                     ctx.count("observed-run-bit-identical" if _same(out, base) else "observed-run-equal-up-to-last-bits")
+                ctx.gc(1)
                 if not rec.records:
                     ctx.note("recording backend received no records")
     finally:
